@@ -1,10 +1,11 @@
 import PyxisVerif.Lemmas.Parser
 import PyxisVerif.Lemmas.Lexer
+import PyxisVerif.Lemmas.LexRender
 /-!
 # C18 – parsing is the inverse of printing
 
 Property theorems only; helper lemmas live in `Lemmas/Parser.lean` (token level) and
-`Lemmas/Lexer.lean` (character level).
+`Lemmas/Lexer.lean`, `Lemmas/LexRender.lean` (character level).
 
 `Parse.parseStr` is the model of `parser::parse_str` (`Model/Lexer.lean`: the `proc_macro2`
 fallback lexer and `syn`'s literal decoding; `Model/Parser.lean`: `src/parser/mod.rs` node for
@@ -12,6 +13,7 @@ node); `Print.printModule` / `Print.printText` write a module as tokens / as tex
 -/
 namespace PyxisVerif.C18
 open Lex (K Tok Pos)
+open Print (Base)
 
 /-- **Well-formed modules**: the modules "of the language", i.e. the abstract modules that some
     concrete text denotes.  `WF m` is `wfB m = true` (`Lemmas/Parser.lean`), decidable.  Required:
@@ -84,6 +86,53 @@ theorem parse_print_tokens (m : G.Module) (h : WF m) :
 
 example : Parse.parseModule (Print.printModule exampleModule) = .ok exampleModule :=
   parse_print_tokens exampleModule (by decide)
+
+/-! ## character level: lexing the printed text gives the printed tokens back -/
+
+/-- **C18, character level (canonical trivia).**  The text written for a well-formed module –
+    every token spelled canonically (decimal integers, cooked strings with escapes, doc
+    comments as `#[doc = "…"]`), one blank after every token except between the two characters
+    of `::` and `->` – lexes to exactly the printed tokens (up to positions).
+
+    This is `lex_render` for one choice of trivia.  The full statement stays open:
+
+    ```
+    theorem lex_render (m : G.Module) (h : WF m) (τ : Trivia) (hτ : τ.Admissible (printK tr m)) :
+        ∃ ts, Lex.lex (render (printK tr m) τ) = .ok ts ∧ ts.map (·.k) = printK tr m
+    ```
+    where `τ` chooses, per gap, any mixture of white space, `//` comments and nested `/* */`
+    comments (non-empty where the two neighbours would glue: identifier/keyword/number/string
+    suffix next to an identifier character, a punctuation character next to another one – which
+    would change its spacing –, `/` next to `/` or `*`), a spelling for every integer (base,
+    `_` separators: this part is `int_value_in_context`) and `///`/`/** */` for `doc`
+    attributes.  Admissibility must also exclude the trivia `/*ERROR*/` directly between `(` and
+    `)`: `proc_macro2` reads `(/*ERROR*/)` as a single literal (the model reproduces this), so
+    "any comment may stand in any gap" is false for the real lexer.  Missing for the full
+    statement: the induction over comment trivia in `Lemmas/LexRender.lean` (`lexCore_render`
+    handles the single-blank separator only); the lexer side (`scanSlash`, `blockEnd`) is
+    modelled and differentially tested. -/
+theorem lex_render_partial (tr : Bool) (m : G.Module) (h : WF m) :
+    ∃ ts, Lex.lex (String.ofList (Print.renderCanon (Print.printK tr m))) = .ok ts ∧
+      ts.map (·.k) = Print.printK tr m := by
+  simp only [Lex.lex, String.toList_ofList]
+  exact lexL_render _ (chk_printK tr m h)
+
+/-- **C18.**  Parsing is the inverse of printing: the text written for a well-formed module
+    parses back to exactly that module. -/
+theorem parse_print (m : G.Module) (h : WF m) : Parse.parseStr (Print.printText m) = .ok m := by
+  obtain ⟨ts, h1, h2⟩ := lex_render_partial true m h
+  simp only [Parse.parseStr, Print.printText, h1]
+  exact parse_print_tokens_any true m h ts h2
+
+/-- the same without trailing separators in the `,`/`;` lists -/
+theorem parse_print_no_trailing (m : G.Module) (h : WF m) :
+    Parse.parseStr (String.ofList (Print.renderCanon (Print.printK false m))) = .ok m := by
+  obtain ⟨ts, h1, h2⟩ := lex_render_partial false m h
+  simp only [Parse.parseStr, h1]
+  exact parse_print_tokens_any false m h ts h2
+
+example : Parse.parseStr (Print.printText exampleModule) = .ok exampleModule :=
+  parse_print exampleModule (by decide)
 
 /-! ## integers keep their value, however they are spelled
 
